@@ -541,8 +541,8 @@ Fixpoint roll (fuel : nat) (mq q : Z) (sr : Q) (x : id) : M unit :=
   | S f =>
       n <- getn x ;;
       (if nonempty_meas (meas n) then modn x (set_meas None) else ret tt) ;;;
-      match wform n with
-      | None => miter (roll f mq q sr) (children n)
+      match (if is_leaf n then wform n else None) with
+      | None => miter (roll f mq q sr) (children n)      (* no waveform, or not a leaf: only the children are rolled *)
       | Some w =>
           let qq := Qred (wf_dur w * sr / inject_Z q) in
           if negb (Pos.eqb (Qden qq) 1) then ret tt else
